@@ -47,6 +47,34 @@ func scionHdr(c *csumCase) *slayers.SCION {
 var scmpKinds = []string{"scmp-echo-request", "scmp-echo-reply", "scmp-traceroute-request", "scmp-traceroute-reply",
 	"scmp-dest-unreachable", "scmp-packet-too-big", "scmp-parameter-problem", "scmp-ext-if-down", "scmp-int-conn-down"}
 
+// dirtyBuffer returns a serialize buffer as a long-running sender has it: used before, Clear()ed, its
+// memory still holding the non-zero bytes of earlier packets (a fresh all-zero buffer is only the special
+// case). Every second call returns a fresh buffer so that both situations are exercised.
+var (
+	reused     = gopacket.NewSerializeBuffer()
+	dirtyCalls int
+)
+
+func dirtyBuffer(need int) gopacket.SerializeBuffer {
+	dirtyCalls++
+	if dirtyCalls%2 == 0 {
+		return gopacket.NewSerializeBuffer()
+	}
+	_ = reused.Clear()
+	junk, err := reused.PrependBytes(need + 64)
+	if err != nil {
+		return gopacket.NewSerializeBuffer()
+	}
+	for i := range junk {
+		junk[i] = byte(0xa5 + 31*i + dirtyCalls)
+		if junk[i] == 0 {
+			junk[i] = 0xff
+		}
+	}
+	_ = reused.Clear()
+	return reused
+}
+
 // serializeBase builds the upper layer with the real message layers (FixLengths + ComputeChecksums).
 func serializeBase(c *csumCase, rng *rand.Rand, payload []byte) (b []byte, err error) {
 	defer func() {
@@ -55,7 +83,7 @@ func serializeBase(c *csumCase, rng *rand.Rand, payload []byte) (b []byte, err e
 		}
 	}()
 	scn := scionHdr(c)
-	buf := gopacket.NewSerializeBuffer()
+	buf := dirtyBuffer(len(payload) + 64)
 	opts := gopacket.SerializeOptions{FixLengths: true, ComputeChecksums: true}
 	var layers []gopacket.SerializableLayer
 	if c.kind == "udp" {
@@ -115,7 +143,7 @@ func reserialize(c *csumCase, scn *slayers.SCION, upper []byte) (ck int) {
 			ck = -2
 		}
 	}()
-	buf := gopacket.NewSerializeBuffer()
+	buf := dirtyBuffer(len(upper) + 64)
 	opts := gopacket.SerializeOptions{ComputeChecksums: true}
 	var err error
 	if c.proto == int(slayers.L4UDP) {
